@@ -1,6 +1,11 @@
 package checks
 
 import (
+	"time"
+	"verifh/rig"
+	"github.com/zishang520/engine.io/v2/types"
+	"github.com/zishang520/engine.io/v2/config"
+	"github.com/zishang520/engine.io-go-parser/packet"
 	"reflect"
 	"bytes"
 	"errors"
@@ -499,10 +504,112 @@ func checkWTRoundTrip(r *rep.Report, c wtCase, got []refcodec.WTMsg) {
 
 // ---------- C14 ----------
 
+// runC14TransportWire: the bytes the engine's WebTransport transport puts on the stream (not just
+// the framing layer used directly): sessions over the in-memory stream, messages sent plainly and
+// as a broadcast with one shared options object carrying a pre-encoded frame; everything after
+// the open packet must be exactly one reference frame per message.
+func runC14TransportWire(rng *rand.Rand, r *rep.Report) (key, msg string, frames int) {
+	rig.Bubble(r.T(), func() {
+		so := &config.ServerOptions{}
+		so.SetTransports(types.NewSet("polling", "websocket", "webtransport"))
+		so.SetPingInterval(25 * time.Second)
+		w := rig.NewWorld(rig.Options{Server: so})
+		defer w.Finish()
+		nSess := 2 + rng.IntN(2)
+		var cls []*rig.Client
+		for k := 0; k < nSess; k++ {
+			cl, err := w.Connect(rig.ClientCfg{Rev: 4, Transport: "webtransport"})
+			if err != nil {
+				key, msg = "wt-handshake-failed", err.Error()
+				return
+			}
+			cl.StartReader()
+			cls = append(cls, cl)
+		}
+		time.Sleep(time.Millisecond)
+		rig.Wait()
+		var want []byte
+		nMsg := 2 + rng.IntN(6)
+		type bm struct {
+			bin  bool
+			data []byte
+			opts *packet.Options
+		}
+		var sent []bm
+		for n := 0; n < nMsg; n++ {
+			m := bm{bin: rng.IntN(2) == 0}
+			size := []int{1, 5, 125, 126, 127, 300, 65535, 65536, 70000}[rng.IntN(9)]
+			m.data = fillPayload(rng, size, !m.bin)
+			if rng.IntN(3) > 0 {
+				// pre-encoded once, shared by every session (and by a later re-send)
+				fb, fd := refcodec.EncodeFrame(4, refcodec.Packet{Type: refcodec.Message, Data: m.data, Binary: m.bin}, false)
+				var f types.BufferInterface
+				if fb {
+					f = types.NewBytesBuffer(fd)
+				} else {
+					f = types.NewStringBuffer(fd)
+				}
+				m.opts = &packet.Options{WsPreEncodedFrame: f}
+			}
+			sent = append(sent, m)
+			if m.opts != nil && rng.IntN(3) == 0 {
+				sent = append(sent, m)
+			}
+		}
+		for _, m := range sent {
+			fb, fd := refcodec.EncodeFrame(4, refcodec.Packet{Type: refcodec.Message, Data: m.data, Binary: m.bin}, false)
+			want = append(want, refcodec.WTFrame(fb, fd)...)
+			for _, sid := range w.SocketIDs() {
+				var rd io.Reader
+				if m.bin {
+					rd = types.NewBytesBuffer(append([]byte(nil), m.data...))
+				} else {
+					rd = types.NewStringBufferString(string(m.data))
+				}
+				w.SocketByID(sid).Send(rd, m.opts, nil)
+			}
+			time.Sleep(time.Millisecond)
+		}
+		time.Sleep(100 * time.Millisecond)
+		rig.Wait()
+		for k, cl := range cls {
+			wire := cl.WTServerStream.Wire()
+			first, _ := refcodec.WTDecode(wire)
+			if len(first) == 0 {
+				key, msg = "wt-wire-format:transport", fmt.Sprintf("session %d: nothing decodable on the wire", k)
+				return
+			}
+			open := refcodec.WTFrame(first[0].Binary, first[0].Payload)
+			rest := wire[len(open):]
+			frames += len(sent)
+			if !bytes.Equal(rest, want) {
+				off := 0
+				for off < len(rest) && off < len(want) && rest[off] == want[off] {
+					off++
+				}
+				key, msg = "wt-wire-format:transport", fmt.Sprintf("session %d of %d: the bytes after the open packet differ from one reference frame per message at offset %d (%d bytes on the wire, %d expected; %d messages, some sent with one shared pre-encoded frame): want % x, got % x", k, nSess, off, len(rest), len(want), len(sent), want[off:min(len(want), off+10)], rest[off:min(len(rest), off+10)])
+				return
+			}
+		}
+		for _, cl := range cls {
+			cl.Stop()
+		}
+	})
+	return
+}
+
 func TestC14(t *testing.T) {
 	r := rep.New(t, "C14")
 	defer r.Flush()
-	r.Rule("encoder: same generator as C13, captured wire bytes compared byte-for-byte with the reference encoder (one minimal frame per message); decoder: reference-encoded streams of 1-50 frames with PRNG length forms (minimal, 16-bit, 64-bit non-minimal, zero length) must yield the same messages; distinct = (direction, api or length form, kind, length class) tuples")
+	r.Rule("encoder: the engine's own WebTransport transport (sessions over the in-memory stream, plain sends and broadcasts sharing one pre-encoded frame: every byte after the open packet compared with one reference frame per message); same generator as C13, captured wire bytes compared byte-for-byte with the reference encoder (one minimal frame per message); decoder: reference-encoded streams of 1-50 frames with PRNG length forms (minimal, 16-bit, 64-bit non-minimal, zero length) must yield the same messages; distinct = (direction, api or length form, kind, length class) tuples")
+	for i := 0; i < r.N(80, 4000); i++ {
+		key, msg, frames := runC14TransportWire(r.CaseRand(141, i), r)
+		r.Case(fmt.Sprintf("transport-wire/%d", frames), frames > 0)
+		r.Obs("transport_frames_compared", int64(frames))
+		if key != "" {
+			r.Violationf(key, map[string]any{"lane": "engine transport wire bytes", "case": i, "seed": r.Seed, "lane_no": r.Lane}, "%s", msg)
+		}
+	}
 	n := r.N(2000, 180000)
 	rng := r.Rand(14)
 	for i := 0; i < n; i++ {
